@@ -298,7 +298,15 @@ pub(crate) fn run_scheduling_solver(
                             &w.resources,
                             sn_assignment.assigned_tasks.iter().map(|task_id| {
                                 let t = task_map.get_task(*task_id);
-                                (t.resource_rq_id, t.rv_id().unwrap())
+                                // A task redirected to this worker is still in the retracting
+                                // state; its variant is stored in the redirection
+                                let rv_id = t
+                                    .rv_id()
+                                    .or_else(|| {
+                                        scheduler_cache.redirects.get(task_id).map(|(_, rv)| *rv)
+                                    })
+                                    .unwrap();
+                                (t.resource_rq_id, rv_id)
                             }),
                             request_map,
                         );
